@@ -220,3 +220,69 @@ def _body_consts():
 
 
 EXTRA.append(_body_consts)
+
+
+# ---- literal slice bounds inside the BIP-38 function bodies: x[a:b] -> (a, b), x[a:] -> (a, 0), x[i] -> (i, i+1)
+def _subscripts(relpath, cls, func, expect_names):
+    fn = find_func(relpath, cls, func)
+    found = []
+    for n in ast.walk(fn):
+        if isinstance(n, ast.Subscript) and isinstance(n.value, ast.Name):
+            sl = n.slice
+            if isinstance(sl, ast.Slice):
+                lo = 0 if sl.lower is None else (sl.lower.value if isinstance(sl.lower, ast.Constant) else None)
+                hi = 0 if sl.upper is None else (sl.upper.value if isinstance(sl.upper, ast.Constant) else None)
+                if lo is None or hi is None or sl.step is not None:
+                    continue                          # bounds that are expressions over named constants
+                if sl.upper is not None and hi == 0:
+                    fail(f"{relpath}: {cls}.{func}: slice with literal upper bound 0")
+                found.append((n.lineno, n.col_offset, n.value.id, lo, hi))
+            elif isinstance(sl, ast.Constant) and isinstance(sl.value, int) and sl.value >= 0:
+                found.append((n.lineno, n.col_offset, n.value.id, sl.value, sl.value + 1))
+    found.sort()
+    names = [f[2] for f in found]
+    if names != expect_names:
+        fail(f"{relpath}: {cls}.{func}: subscripted variables {names} differ from the expected {expect_names}")
+    for f in found:
+        if not (isinstance(f[3], int) and isinstance(f[4], int) and 0 <= f[3] < 5000 and 0 <= f[4] < 5000):
+            fail(f"{relpath}: {cls}.{func}: unexpected slice bounds {f}")
+    return "[" + "; ".join("(%d%%nat, %d%%nat)" % (f[3], f[4]) for f in found) + "]"
+
+
+def _kwarg_const(relpath, cls, func, callee_attr, kw):
+    fn = find_func(relpath, cls, func)
+    hits = []
+    for n in ast.walk(fn):
+        if isinstance(n, ast.Call) and isinstance(n.func, ast.Attribute) and n.func.attr == callee_attr:
+            for k in n.keywords:
+                if k.arg == kw and isinstance(k.value, ast.Constant) and isinstance(k.value.value, int):
+                    hits.append(k.value.value)
+    if len(hits) != 1:
+        fail(f"{relpath}: {cls}.{func}: expected one {callee_attr}(..., {kw}=<int>) call, found {hits}")
+    return hits[0]
+
+
+def _bip38_body_consts():
+    P = "priv_key_enc_bytes"
+    out = []
+
+    def sl(name, f, cls, func, names):
+        out.append(f"Definition {name} : list (nat * nat) := {_subscripts(f, cls, func, names)}.")
+    sl("bip38_noec_dec_slices", B38N, "Bip38NoEcDecrypter", "Decrypt", [P] * 5)
+    sl("bip38_noec_enc_slices", B38N, "Bip38NoEcEncrypter", "__EncryptPrivateKey",
+       ["priv_key_bytes", "derived_half_1", "priv_key_bytes", "derived_half_1"])
+    sl("bip38_ec_gen_slices", B38E, "Bip38EcKeysGenerator", "GeneratePrivateKey",
+       ["int_passphrase_bytes"] * 3 + ["encrypted_part_1"])
+    sl("bip38_ec_encseedb_slices", B38E, "Bip38EcKeysGenerator", "__EncryptSeedb",
+       ["seedb", "derived_half_1", "encrypted_part_1", "seedb", "derived_half_1"])
+    sl("bip38_ec_dec_slices", B38E, "Bip38EcDecrypter", "Decrypt", [P] * 6)
+    sl("bip38_ec_factorb_slices", B38E, "Bip38EcDecrypter", "__DecryptAndGetFactorb",
+       ["derived_half_1", "decrypted_part_2", "decrypted_part_2", "derived_half_1"])
+    out.append("Definition bip38_ec_lotseq_len : nat := %d%%nat." %
+               _kwarg_const(B38E, "_Bip38EcUtils", "OwnerEntropyWithLotSeq", "ToBytes", "bytes_num"))
+    return out
+
+
+EXTRA.append(_bip38_body_consts)
+TABLE.append(("secp256k1_order", "bip_utils/ecc/secp256k1/secp256k1_const.py", "Secp256k1Const", "CURVE_ORDER", "N",
+              lambda v: int(v)))
